@@ -13,6 +13,11 @@ M = [
  ('C11-a', 'C11', 'frontends/tui/controller.py', 'if cap and len(acc) >= cap:', 'if cap and len(acc) > cap:', 1),
  ('C11-c', 'C11', 'frontends/tui/controller.py', 'didnt_match += 1', 'didnt_match += 0', 1),
  ('C11-d', 'C11', 'frontends/tui/controller.py', 'return (list(reversed(acc)), len(acc)', 'return (list(acc), len(acc)', 1),
+ ('C02-a', 'C02', 'core/wl/object.py', 'return self.id >= 0xff000000', 'return self.id > 0xff000000', 1),
+ ('C02-b', 'C02', 'core/connection_impl.py', 'generation = len(self.db[obj_id])', "generation = len(self.db[obj_id]) if type_name != 'wl_callback' else max(len(self.db[obj_id]), 1)", 1),
+ ('C03-a', 'C03', 'core/wl/message.py', 'self.destroyed_obj = conn.retrieve_object(first_arg.value, -1, None)', 'self.destroyed_obj = conn.retrieve_object(first_arg.value, 0, None)', 1),
+ ('C03-b', 'C03', 'core/wl/object.py', 'return self.destroy_time - self.create_time', 'return self.create_time - self.destroy_time', 1),
+ ('C03-c', 'C03', 'core/wl/object.py', '        self.destroy_time = time\n        self.alive = False', '        self.destroy_time = time\n        self.alive = self.alive', 1),
  ('C16-a', 'C16', 'frontends/tui/controller.py', 'if delta > 1.0:', 'if delta >= 1.0:', 1),
  ('C16-b', 'C16', 'frontends/tui/controller.py', "                ')')\n            self.last_shown_timestamp = None", "                ')')", 1),
  ('C06-a', 'C06', 'frontends/tui/controller.py', 'if self.current_connection is None or connection == self.current_connection:', 'if True:', 1),
